@@ -16,7 +16,11 @@ ASSUMPTIONS = [
     'Python int() on signs, underscores and non-ASCII digits is outside the model and not generated',
 ]
 ID_SETS = [['9', '10', '100'], ['1000', '2863312530', '5', '1431656765', '3000000007'], ['\n    9\n  ', ' 10 ', '8', '100\t'], ['2', '11', '1', '3'], ['007', '8', '10', '9'], ['99', '100', '101', '1000', '5'],
-           ['1', '2', '3', '4', '5', '6'], ['10', '9'], ['20', '3', '100', '0099']]
+           ['1', '2', '3', '4', '5', '6'], ['10', '9'], ['20', '3', '100', '0099'],
+           # zero (falsy in Python) as the lowest ID, with and without leading zeros; IDs that only differ beyond the
+           # precision of a binary64 float; IDs beyond 64 bits
+           ['9', '0', '10', '100'], ['1', '00', '2', '10'], ['9007199254740993', '9007199254740992', '3', '9007199254740994'],
+           ['18446744073709551617', '5', '18446744073709551616', '4294967296']]
 
 
 def messages(ids, rng, ro_at=0):
@@ -42,7 +46,7 @@ def messages(ids, rng, ro_at=0):
 
 class Check:
     pid = 'C10'
-    rule = ('message-ID sets of mixed digit counts (9/10/100, leading zeros) x all permutations of the supplied list '
+    rule = ('message-ID sets of mixed digit counts (9/10/100, leading zeros, 0 and 00, neighbours above 2**53, values above 2**64) x all permutations of the supplied list '
             '(<=6 messages exhaustively, sampled beyond) x the roCreate carrying the lowest / a middle / the highest ID x {from_strings, from_files, from_s3}; sorted(MosFile objects) as well. '
             'The messages are order sensitive (append then move the appended story). distinct by (id set, permutation class, constructor)')
 
